@@ -211,3 +211,17 @@ reg("C08",
     rule="one evaluation = one scenario run with one fault (or one rlimit value, one burst, one fork step); distinct = distinct (transport, flavour, failing call, index, errno) sites whose injection fired, (transport, flavour, rlimit) and (transport, flavour, fork step) tuples",
     assumptions=["baselines are taken after one warm-up connection per transport (OpenSSL/glibc process-wide state)",
                  "reachable-at-exit library state is not a leak (LeakSanitizer semantics)"])
+
+reg("C13",
+    title="name resolution and multi-address connect follow the selected algorithm",
+    technique="stub resolver substituted for c-ares at link time (answer list, delivery time, failure, silence chosen per case); loopback topology of accepting XCM servers, refusing addresses and listeners with a full accept queue (no answer); the shim's connect() log (order, time) and the API outcome checked against an oracle computed from list x assignment x algorithm; ASan+UBSan with stack-use-after-return detection",
+    level_text="Lists of 1..40 IPv4/IPv6 loopback addresses (v4-mapped and ::1 for IPv6) in any order, each accepting, refusing or not answering, delivered by the stub resolver synchronously, after n process calls, after t ms, never, or as a failure status; algorithms single, sequential, happy_eyeballs; with and without xcm.local_addr; small tcp.connect_timeout and dns.timeout; tcp, tls, utls, btcp, btls; the outcome observed first through finish, send or receive. Oracle: connect() is called only on addresses among the first 32 (single: the first), in list order (per family for happy eyeballs, IPv4 not before 200 ms when IPv6 candidates exist), stopping at the first that accepts; the connection comes up iff a usable address accepts, to that address (xcm_remote_addr), from the configured source; otherwise the errno of the last failed attempt (ECONNREFUSED/ETIMEDOUT), ENOENT for resolver failure or silence beyond dns.timeout, sticky, within time bounds (slack 1 s + 50 %); xcm_server on an unresolvable name fails with ENOENT.",
+    level_note="c-ares' own ordering and retry logic are outside the judged system (the stub answers instead). Time bounds carry a slack of 1 s + 50 %.",
+    harness=STATES + ["c13.c"],
+    stages=[dict(variant="asan", cases={"quick": 1600, "thorough": 30000}, timeout={"quick": 900, "thorough": 3400})],
+    floors={"quick": {"connect_scenarios": 1400, "multi_attempt_or_resolver_fault_cases": 600, "connections_established": 500, "connect_failures_verified": 200, "resolver_fault_cases_ok": 100,
+                      "happy_eyeballs_ipv4_delay_checked": 20, "local_addr_verified": 80, "server_unresolvable_cases": 10, "distinct_nontrivial": 150},
+            "thorough": {"connect_scenarios": 28000, "multi_attempt_or_resolver_fault_cases": 12000, "local_addr_verified": 1500, "server_unresolvable_cases": 200, "distinct_nontrivial": 300}},
+    rule="one evaluation = one (list, assignment, resolver behaviour, algorithm, transport, local address, timeouts, first observer) scenario; non-trivial = at least two connect attempts or a resolver fault; distinct = distinct (transport, algorithm, list length class, attempts, outcome, observer, local-addr, family mix) signatures",
+    assumptions=["with xcm.local_addr (an IPv4 address) the generated lists are IPv4-only",
+                 "for happy eyeballs the failure errno of either track's last attempt is accepted (documentation does not order the tracks)"])
